@@ -395,6 +395,12 @@ func (s *SwapData) GetCancelMessage() string {
 		return s.LastErr.Error()
 	}
 
+	// LastErr is not persisted, LastErrString is its persisted form: a swap
+	// reloaded from the store reports the same reason as before.
+	if s.LastErrString != "" {
+		return s.LastErrString
+	}
+
 	if s.CancelMessage != "" {
 		return s.CancelMessage
 	}
@@ -405,6 +411,13 @@ func (s *SwapData) GetCancelMessage() string {
 func (s *SwapData) GetPrivkey() *btcec.PrivateKey {
 	privkey, _ := btcec.PrivKeyFromBytes(s.PrivkeyBytes)
 	return privkey
+}
+
+// syncLastErr makes LastErrString, the persisted form of LastErr, current.
+func (s *SwapData) syncLastErr() {
+	if s != nil && s.LastErr != nil {
+		s.LastErrString = s.LastErr.Error()
+	}
 }
 
 // NewSwapData returns a new swap with a random hex id and the given arguments
